@@ -82,6 +82,10 @@ func runProgram(ops []op, level zapcore.Level, toggles bool) string {
 				for k := range o.Chunk {
 					if o.Chunk[k] != '\n' {
 						o.Chunk[k] = byte('a' + seg%26)
+						if !enabled {
+							// written while the level is disabled: must never show up in any message
+							o.Chunk[k] = byte('A' + seg%26)
+						}
 					}
 				}
 			}
@@ -132,6 +136,11 @@ func runProgram(ops []op, level zapcore.Level, toggles bool) string {
 		// of Sync are judged
 		for i := range got {
 			m := got[i].Message
+			for k := 0; k < len(m); k++ {
+				if m[k] >= 'A' && m[k] <= 'Z' {
+					return fmt.Sprintf("message %d %q contains bytes that were written while the level was disabled", i, clip(m))
+				}
+			}
 			for k := 1; k < len(m); k++ {
 				if m[k] != m[0] {
 					return fmt.Sprintf("message %d %q joins bytes written before and after a Sync: an explicit Sync must act as a split point (also while the level is disabled)", i, clip(m))
